@@ -13,7 +13,8 @@ Inductive oev :=
 | OEof (c : Z)
 | ODeadline (c : Z)
 | OWrite (c w a : Z)                           (* association c wrote reply w; WriteTo was given address a *)
-| ORet (c : Z).
+| ORet (c : Z)
+| OClosed (c : Z).                             (* the handler called Close itself and Close returned *)
 
 Inductive c09case :=
 | CTrace (tr : list oev)
@@ -48,6 +49,7 @@ Fixpoint conv (all : list oev) (tr : list oev) : option (list ev) :=
           | ODeadline c => Some (EDeadline (n c) :: r')
           | OWrite c w a => if (0 <=? a) && (0 <=? c) then Some (EWrite (n c) (n w) (n a) :: r') else None
           | ORet c => Some (ERet (n c) :: r')
+          | OClosed c => Some (EClosed (n c) :: r')
           end
       end
   end.
